@@ -18,9 +18,11 @@ import (
 	"github.com/btcsuite/btcd/wire/v2"
 	"github.com/lightningnetwork/lnd/chainntnfs"
 	"github.com/lightningnetwork/lnd/channeldb"
+	"github.com/lightningnetwork/lnd/chanstate"
 	"github.com/lightningnetwork/lnd/fn/v2"
 	"github.com/lightningnetwork/lnd/input"
 	"github.com/lightningnetwork/lnd/internal/verifkit"
+	lnmock "github.com/lightningnetwork/lnd/lntest/mock"
 	"github.com/lightningnetwork/lnd/lnwallet"
 	"github.com/lightningnetwork/lnd/lnwallet/chainfee"
 	"github.com/lightningnetwork/lnd/lnwire"
@@ -80,9 +82,13 @@ type c4In struct {
 }
 
 type c4SL struct {
-	Idx int64 `json:"idx"`
-	Amt int64 `json:"amt"`
-	Eng int   `json:"eng"`
+	K     int   `json:"k"`     // 2 HTLC we offered, 3 HTLC we received
+	Idx   int64 `json:"idx"`   // output index of the HTLC on the revoked commitment
+	J     int64 `json:"j"`     // position of the input that spends it in the cheater's second-level tx
+	OIdx  int64 `json:"oidx"`  // output index the breach arbitrator redirected the justice input to
+	Amt   int64 `json:"amt"`   // amount in the morphed sign descriptor
+	TxAmt int64 `json:"txamt"` // value of the output at position j of the cheater's second-level tx
+	Eng   int   `json:"eng"`   // interpreter verdict of the second-level justice input
 }
 
 type c4Justice struct {
@@ -102,6 +108,10 @@ type c4Justice struct {
 	NHtlcLog    int    `json:"nhtlclog"`
 	SL2         int    `json:"sl2"`
 	SL          []c4SL `json:"sl"`
+	BSL2        int    `json:"bsl2"` // 1: the cheater took >= 2 HTLCs to the second level in ONE transaction
+	BSL         []c4SL `json:"bsl"`
+	BAll        int    `json:"ball"` // batched case: spend-all justice tx built and every input valid
+	Rec         int    `json:"rec"`  // y = 2: the chain watcher handed over a retribution for exactly this state
 	Note        string `json:"note"` // first interpreter error, for the human reader only
 }
 
@@ -124,6 +134,9 @@ type c4Side struct {
 	nextID uint64
 	// what this side could broadcast at each height it ever persisted
 	held map[uint64]*lnwallet.LocalForceCloseSummary
+	// the chain watcher's private copy of the channel, read from the
+	// database when the history starts and never touched by the link
+	stale *chanstate.OpenChannel
 }
 
 func c4Engine(pkScript []byte, value int64, tx *wire.MsgTx, idx int,
@@ -212,7 +225,7 @@ func c4Kind(wt input.WitnessType) int {
 
 // justice punishes height h of cheater from victim's persisted state.
 func c4Punish(victim, cheater *c4Side, h uint64, withTx bool, noAmt bool, thaw uint32) c4Justice {
-	ln := c4Justice{c4Ev: c4Ev{A: "Justice", P: victim.name, X: int(h)}, Ins: []c4In{}, SL: []c4SL{},
+	ln := c4Justice{c4Ev: c4Ev{A: "Justice", P: victim.name, X: int(h)}, Ins: []c4In{}, SL: []c4SL{}, BSL: []c4SL{},
 		Hint: -1, OurIdx: -1, TheirIdx: -1, OurAmtLog: -1, TheirAmtLog: -1}
 	if withTx {
 		ln.Y = 1
@@ -402,9 +415,10 @@ func c4Punish(victim, cheater *c4Side, h uint64, withTx bool, noAmt bool, thaw u
 		if c4Kind(bo.WitnessType()) < 2 {
 			continue
 		}
-		stx := second[bo.OutPoint()]
+		kind, orig := c4Kind(bo.WitnessType()), bo.OutPoint()
+		stx := second[orig]
 		if stx == nil {
-			ln.SL = append(ln.SL, c4SL{Idx: int64(bo.OutPoint().Index), Amt: -1, Eng: 0})
+			ln.SL = append(ln.SL, c4SL{K: kind, Idx: int64(orig.Index), OIdx: -1, Amt: -1, TxAmt: -1})
 			continue
 		}
 		sh := stx.TxHash()
@@ -413,26 +427,182 @@ func c4Punish(victim, cheater *c4Side, h uint64, withTx bool, noAmt bool, thaw u
 			SpenderInputIndex: 0, SpendingHeight: 101,
 		})
 		spent[bo.OutPoint()] = stx
+		rec := c4SL{K: kind, Idx: int64(orig.Index), J: 0, OIdx: -1, Amt: bo.SignDesc().Output.Value,
+			TxAmt: stx.TxOut[0].Value}
+		if bo.OutPoint().Hash == sh {
+			rec.OIdx = int64(bo.OutPoint().Index)
+		}
+		ln.SL = append(ln.SL, rec)
+	}
+	// verdicts of the second-level justice transactions, keyed by the outpoint spent
+	slVerdicts := func(txs *justiceTxVariants, prev func(wire.OutPoint) *wire.TxOut) map[wire.OutPoint]int {
+		res := map[wire.OutPoint]int{}
+		if txs == nil {
+			return res
+		}
+		for _, jc := range txs.spendSecondLevelHTLCs {
+			for i, in := range jc.justiceTx.TxIn {
+				o := prev(in.PreviousOutPoint)
+				if o == nil {
+					res[in.PreviousOutPoint] = 0
+					continue
+				}
+				fetcher := txscript.NewCannedPrevOutputFetcher(o.PkScript, o.Value)
+				eerr := c4Engine(o.PkScript, o.Value, jc.justiceTx, i, fetcher)
+				note("second-level justice input", eerr)
+				res[in.PreviousOutPoint] = c4Bit(eerr)
+			}
+		}
+		return res
 	}
 	txs2, err := brar.createJusticeTx(ri2.breachedOutputs)
 	if err != nil {
-		ln.SL2 = 0
+		note("createJusticeTx after second-level spends", err)
+	}
+	v2 := slVerdicts(txs2, func(op wire.OutPoint) *wire.TxOut {
+		if stx := spent[op]; stx != nil && int(op.Index) < len(stx.TxOut) {
+			return stx.TxOut[op.Index]
+		}
+		return nil
+	})
+	k := 0
+	for i := range ri2.breachedOutputs {
+		bo := &ri2.breachedOutputs[i]
+		if bo.WitnessType() == input.HtlcSecondLevelRevoke || bo.WitnessType() == input.TaprootHtlcSecondLevelRevoke {
+			for k < len(ln.SL) && ln.SL[k].OIdx < 0 {
+				k++
+			}
+			if k < len(ln.SL) {
+				ln.SL[k].Eng = v2[bo.OutPoint()]
+				k++
+			}
+		}
+	}
+
+	// The same when the cheater AGGREGATES all its second-level spends into one
+	// transaction, which the SINGLE|ANYONECANPAY signatures of anchor channels
+	// permit: input j pairs with output j.  Fed through updateBreachInfo, as
+	// exactRetribution does with the spends it is notified of.
+	if !vstate.ChanType.HasAnchors() {
 		return ln
 	}
-	for _, jc := range txs2.spendSecondLevelHTLCs {
-		for i, in := range jc.justiceTx.TxIn {
-			stx := spent[in.PreviousOutPoint]
-			if stx == nil {
-				ln.SL = append(ln.SL, c4SL{Idx: -1, Amt: -1, Eng: 0})
+	ret3, err := retribution()
+	if err != nil {
+		return ln
+	}
+	ri3 := newRetributionInfo(&vstate.FundingOutpoint, ret3)
+	var order []int
+	for i := len(ri3.breachedOutputs) - 1; i >= 0; i-- { // not in commitment order
+		bo := &ri3.breachedOutputs[i]
+		if c4Kind(bo.WitnessType()) >= 2 && second[bo.OutPoint()] != nil {
+			order = append(order, i)
+		}
+	}
+	if len(order) < 2 {
+		return ln
+	}
+	ln.BSL2 = 1
+	batch := wire.NewMsgTx(2)
+	for _, i := range order {
+		stx := second[ri3.breachedOutputs[i].OutPoint()]
+		batch.AddTxIn(stx.TxIn[0])
+		batch.AddTxOut(stx.TxOut[0])
+	}
+	bh := batch.TxHash()
+	var spends []spend
+	for j, i := range order {
+		bo := &ri3.breachedOutputs[i]
+		op := bo.OutPoint()
+		ln.BSL = append(ln.BSL, c4SL{K: c4Kind(bo.WitnessType()), Idx: int64(op.Index), J: int64(j), OIdx: -1,
+			Amt: -1, TxAmt: batch.TxOut[j].Value})
+		spends = append(spends, spend{index: i, detail: &chainntnfs.SpendDetail{
+			SpentOutPoint: &op, SpenderTxHash: &bh, SpendingTx: batch, SpenderInputIndex: uint32(j),
+			SpendingHeight: 101,
+		}})
+	}
+	updateBreachInfo(ri3, spends)
+	txs3, err := brar.createJusticeTx(ri3.breachedOutputs)
+	if err != nil {
+		note("createJusticeTx after the batched second-level spend", err)
+	}
+	prev3 := func(op wire.OutPoint) *wire.TxOut {
+		switch {
+		case op.Hash == bh && int(op.Index) < len(batch.TxOut):
+			return batch.TxOut[op.Index]
+		case op.Hash == breachHash && int(op.Index) < len(breachTx.TxOut):
+			return breachTx.TxOut[op.Index]
+		}
+		return nil
+	}
+	v3 := slVerdicts(txs3, prev3)
+	for j, i := range order {
+		if i >= len(ri3.breachedOutputs) {
+			continue
+		}
+		bo := &ri3.breachedOutputs[i]
+		ln.BSL[j].Amt = bo.SignDesc().Output.Value
+		if bo.OutPoint().Hash == bh {
+			ln.BSL[j].OIdx = int64(bo.OutPoint().Index)
+		}
+		ln.BSL[j].Eng = v3[bo.OutPoint()]
+	}
+	if txs3 != nil && txs3.spendAll != nil {
+		ln.BAll = 1
+		jt := txs3.spendAll.justiceTx
+		fetcher := txscript.NewMultiPrevOutFetcher(nil)
+		for _, in := range jt.TxIn {
+			if o := prev3(in.PreviousOutPoint); o != nil {
+				fetcher.AddPrevOut(in.PreviousOutPoint, o)
+			}
+		}
+		for i, in := range jt.TxIn {
+			o := prev3(in.PreviousOutPoint)
+			if o == nil {
+				ln.BAll = 0
 				continue
 			}
-			o := stx.TxOut[in.PreviousOutPoint.Index]
-			fetcher := txscript.NewCannedPrevOutputFetcher(o.PkScript, o.Value)
-			eerr := c4Engine(o.PkScript, o.Value, jc.justiceTx, i, fetcher)
-			note("second-level justice input", eerr)
-			ln.SL = append(ln.SL, c4SL{Idx: int64(stx.TxIn[0].PreviousOutPoint.Index), Amt: o.Value,
-				Eng: c4Bit(eerr)})
+			// F11: the victim's own lease-locked to_remote input is judged on the
+			// first-level lines; here only the second-level inputs and to_local count
+			if eerr := c4Engine(o.PkScript, o.Value, jt, i, fetcher); eerr != nil &&
+				!(in.PreviousOutPoint.Hash == breachHash && in.PreviousOutPoint == ret3.LocalOutpoint) {
+
+				note("spend-all after the batched second-level spend", eerr)
+				ln.BAll = 0
+			}
 		}
+	}
+	return ln
+}
+
+// c4Watch: the chain watcher's own path with its own, STALE copy of the channel
+// state - handleCommitSpend: newChainSet (refreshes the revocation store from
+// the database), state hint, known local / remote state, handlePossibleBreach ->
+// NewBreachRetribution -> contractBreach hand-off.
+func c4Watch(victim, cheater *c4Side, w *chainWatcher, got *[]*lnwallet.BreachRetribution, h uint64,
+	noAmt bool) c4Justice {
+
+	ln := c4Justice{c4Ev: c4Ev{A: "Justice", P: victim.name, X: int(h), Y: 2}, Ins: []c4In{}, SL: []c4SL{},
+		BSL: []c4SL{}, Hint: -1, OurIdx: -1, TheirIdx: -1, OurAmtLog: -1, TheirAmtLog: -1}
+	if noAmt {
+		ln.NoAmt = 1
+	}
+	sum := cheater.held[h]
+	if sum == nil {
+		ln.Err = "harness: no transaction of the cheater recorded for this height"
+		return ln
+	}
+	breachTx := sum.CloseTx
+	txid := breachTx.TxHash()
+	ln.Hint = int64(w.cfg.extractStateNumHint(breachTx, w.stateHintObfuscator))
+	*got = nil
+	err := w.handleCommitSpend(&chainntnfs.SpendDetail{
+		SpenderTxHash: &txid, SpendingTx: breachTx, SpendingHeight: 100,
+	})
+	if err != nil {
+		ln.Err = err.Error()
+	}
+	if len(*got) == 1 && (*got)[0].RevokedStateNum == h && (*got)[0].BreachTxHash == txid {
+		ln.Rec, ln.TxID = 1, 1
 	}
 	return ln
 }
@@ -487,6 +657,17 @@ func TestVerifC04Justice(t *testing.T) {
 			return &c4Side{name: n, lc: lc, pool: pool, held: map[uint64]*lnwallet.LocalForceCloseSummary{}}
 		}
 		sides := map[string]*c4Side{opener: mk(opener, alice), nonOpener: mk(nonOpener, bob)}
+		for _, sd := range sides {
+			st := sd.lc.State()
+			chans, err := st.Db.FetchOpenChannels(st.IdentityPub)
+			if err != nil || len(chans) != 1 {
+				t.Fatalf("FetchOpenChannels: %v n=%d", err, len(chans))
+			}
+			sd.stale = chans[0]
+			if ctype.HasLeaseExpiration() {
+				sd.stale.ThawHeight = thaw
+			}
+		}
 		pres := map[string][32]byte{} // "<offerer>/<htlc id>" -> preimage
 		lastPre := map[string][32]byte{}
 		lastExp := map[string]uint32{}
@@ -670,6 +851,32 @@ func TestVerifC04Justice(t *testing.T) {
 					out.Emit(c4Punish(victim, cheater, h, withTx, noAmt, thaw))
 					njust++
 				}
+			}
+			// last (it marks the channel borked in the victim's database): every
+			// revoked height must be recognised by a chain watcher that was given
+			// its copy of the channel before any of them was revoked
+			var got []*lnwallet.BreachRetribution
+			w, err := newChainWatcher(chainWatcherConfig{
+				chanState: victim.stale,
+				notifier: &lnmock.ChainNotifier{
+					SpendChan: make(chan *chainntnfs.SpendDetail, 1),
+					EpochChan: make(chan *chainntnfs.BlockEpoch),
+					ConfChan:  make(chan *chainntnfs.TxConfirmation, 1),
+				},
+				signer: victim.lc.Signer,
+				contractBreach: func(r *lnwallet.BreachRetribution) error {
+					got = append(got, r)
+					return nil
+				},
+				extractStateNumHint: lnwallet.GetStateNumHint,
+				chanCloseConfs:      fn.Some(uint32(1)),
+			})
+			if err != nil {
+				t.Fatalf("newChainWatcher: %v", err)
+			}
+			for h := uint64(1); h < top; h++ {
+				out.Emit(c4Watch(victim, cheater, w, &got, h, noAmt))
+				njust++
 			}
 		}
 	}
